@@ -176,7 +176,11 @@ def run(prog: Program, res: Result) -> None:
         seen = reachable(prog, ctx, [x for x in roots if x is not None], r)
         impure = []
         for f in seen:
-            if f.cls is None or not prog.is_subclass(f.cls, ABSTRACT):
+            # the optimizer itself and the objects every worker shares with it: the task, its variables, their encoders
+            shared_obj = f.cls is not None and (prog.is_subclass(f.cls, ABSTRACT) or prog.is_subclass(f.cls, prog.TASK)
+                                                or prog.is_subclass(f.cls, prog.VARIABLE)
+                                                or f.cls.qualname == f"{PKG}.models.LabelEncoder")
+            if not shared_obj or f.name == "__init__":
                 continue
             for n in own_nodes(f):
                 hit = None
